@@ -39,7 +39,7 @@ def g_eq_strategy(topologies=None, with_profiles=True):
         eq["nR"], eq["nZ"] = draw(n), draw(n)
         if with_profiles:
             f0 = draw(st.sampled_from([1.0, -1.0])) * _round(draw(st.floats(0.5, 3.0)), 3)
-            if draw(st.integers(0, 5)) > 0:
+            if draw(st.integers(0, 5)) < 5:
                 eq["fpol"] = [
                     f0,
                     _round(draw(st.floats(-0.15, 0.15)), 3),
@@ -281,6 +281,11 @@ def collect(strategy, n, seed, oversample=6, keyfn=None):
         if k not in seen:
             seen.add(k)
             uniq.append(d)
+    import hashlib
+
+    # Hypothesis emits its simplest examples first; order within a label by hash so that the
+    # selection is not biased towards them (still a pure function of the seed)
+    uniq.sort(key=lambda d: hashlib.sha256((str(seed) + json.dumps(d, sort_keys=True)).encode()).hexdigest())
     buckets = {}
     for d in uniq:
         buckets.setdefault(keyfn(d), []).append(d)
